@@ -399,11 +399,11 @@ Proof.
   - (* CDQ *)
     destruct sa; cbn [site_class ident_san] in Hsafe, Hg; try discriminate Hsafe;
       unfold lit_expected; cbn [ident_san];
-      first [ now apply guard_lit_ok | now apply ident_lit_ok; [left|] ].
+      first [ apply andb_prop in Hg as [Hg _]; now apply guard_lit_ok | now apply ident_lit_ok; [left|] ].
   - (* CSQ *)
     destruct sa; cbn [site_class ident_san] in Hsafe, Hg; try discriminate Hsafe;
       unfold lit_expected; cbn [ident_san];
-      first [ now apply guard_lit_ok | now apply ident_lit_ok; [right|] | now apply whole_site ].
+      first [ now apply whole_site | apply andb_prop in Hg as [Hg _]; now apply guard_lit_ok | now apply ident_lit_ok; [right|] ].
   - (* CDoc *)
     destruct sa; cbn [site_class ident_san] in Hsafe, Hg; try discriminate Hsafe;
       first [ now apply guard_doc_ok | now apply ident_doc_ok ].
@@ -411,13 +411,13 @@ Proof.
     destruct sa; cbn [site_class ident_san] in Hsafe, Hg; try discriminate Hsafe; now apply ident_doc_ok.
   - (* CFstrDQ *)
     destruct sa; cbn [site_class ident_san] in Hsafe, Hg; try discriminate Hsafe;
-      apply andb_prop in Hg as [Hi Hb]; (split; [exact Hb|]);
+      apply andb_prop in Hg as [Hg _]; apply andb_prop in Hg as [Hi Hb]; (split; [exact Hb|]);
       apply lit_inert_value in Hi as [v Hv]; exists v; intros pre post rest; now apply lit_site.
   - (* CTomlBasic *)
     unfold lex_toml_basic.
     destruct sa; cbn [site_class ident_san] in Hsafe, Hg; try discriminate Hsafe;
       unfold lit_expected; cbn [ident_san];
-      first [ apply andb_prop in Hg as [Hg _]; now apply guard_lit_ok | now apply ident_lit_ok; [left|] ].
+      first [ apply andb_prop in Hg as [Hg _]; apply andb_prop in Hg as [Hg _]; now apply guard_lit_ok | now apply ident_lit_ok; [left|] ].
 Qed.
 
 (* the regenerated table: every site of the generator under verification is acceptable *)
@@ -434,16 +434,25 @@ Qed.
 
 Definition mk (c : ctx) (sa : san) (slot file : string) : site := {| s_slot := slot; s_file := file; s_ctx := c; s_san := sa |}.
 
-Theorem guard_dq_esc slot file p : no_bs_nl p = true -> slot_guard (mk CDQ SEsc slot file) p = true.
+Lemma escape_dq_existsb (f : N -> bool) p : f 92 = false -> existsb f (escape_dq p) = existsb f p.
 Proof.
-  intros H. cbn. unfold lit_guard, lit_value.
-  rewrite (dq_literal_roundtrip p [] H). apply str_eqb_refl.
+  intros H92. induction p as [|c p IH]; [reflexivity|].
+  rewrite escape_dq_cons, existsb_app, IH. destruct (N.eqb_spec c 34) as [->|NE]; cbn [existsb]; [rewrite H92, orb_false_r; reflexivity | now rewrite orb_false_r].
 Qed.
 
-Theorem guard_dq_none slot file p : plain_dq p = true -> slot_guard (mk CDQ SNone slot file) p = true.
+Lemma escape_dq_no_linesep p : no_linesep (escape_dq p) = no_linesep p.
+Proof. unfold no_linesep. f_equal. now apply escape_dq_existsb. Qed.
+
+Theorem guard_dq_esc slot file p : no_bs_nl p = true -> no_linesep p = true -> slot_guard (mk CDQ SEsc slot file) p = true.
 Proof.
-  intros H. cbn. unfold lit_guard, lit_value.
-  rewrite (raw_in_dq p [] H). apply str_eqb_refl.
+  intros H Hl. cbn -[no_linesep]. rewrite escape_dq_no_linesep, Hl. unfold lit_guard, lit_value.
+  rewrite (dq_literal_roundtrip p [] H). now rewrite str_eqb_refl.
+Qed.
+
+Theorem guard_dq_none slot file p : plain_dq p = true -> no_linesep p = true -> slot_guard (mk CDQ SNone slot file) p = true.
+Proof.
+  intros H Hl. cbn -[no_linesep]. rewrite Hl. unfold lit_guard, lit_value.
+  rewrite (raw_in_dq p [] H). now rewrite str_eqb_refl.
 Qed.
 
 Theorem guard_sq_repr slot file p : repr_printable p = true -> slot_guard (mk CSQ SRepr slot file) p = true.
@@ -513,6 +522,13 @@ Qed.
 Theorem nul_char_refuted :
   slot_guard (mk CDoc SEsc "Operation.description" "api/*/*.py") [97; 0] = false /\
   slot_guard (mk CDQ SEsc "Schema.properties.key@model" "models/*.py") [97; 0] = false.
+Proof. vm_compute. repeat split; reflexivity. Qed.
+
+(* linesep_newline: the indent filter turns a line separator inside an escaped name into a real newline *)
+Theorem linesep_newline_refuted :
+  slot_guard (mk CDQ SEsc "Schema.properties.key@model" "models/*.py") [97; 8232; 98] = false /\
+  no_bs_nl [97; 8232; 98] = true /\
+  lex_body DQ ([97; 10; 98] ++ [DQ]) = None.
 Proof. vm_compute. repeat split; reflexivity. Qed.
 
 (* name_backslash: remove_string_escapes does not escape a backslash or a newline *)
